@@ -819,6 +819,49 @@ func stakingCapHistory(seed uint64, rng *Rng) *Pilot {
 	return p
 }
 
+// ---- history: many-claims ---------------------------------------------------------------------------
+// Ten whitelisted validators of unequal power (1×7, 10, 10, 13: total 40, 28 needed) all report DIFFERENT contents for
+// one Ethereum event: more distinct conflicting claims on a pending prophecy than any small bound, one validator
+// each.  With all claims weighed the prophecy fails at the ninth claim; the order of the claims varies per event.
+
+func manyClaimsHistory(seed uint64, rng *Rng) *Pilot {
+	p := NewPilot("many-claims", seed, rng, GenesisOpts{NUsers: 3, ValPowers: []int64{1, 1, 1, 1, 1, 1, 1, 10, 10, 13}, EpochSeconds: 3600}, 600)
+	rcv := p.W.Users[0].Addr
+	for ev := 0; ev < 6; ev++ {
+		p.nonce++
+		n := p.nonce
+		order := make([]int, len(p.W.Vals))
+		for i := range order {
+			order[i] = i
+		}
+		switch ev {
+		case 0: // the weak validators first, then the two of power 10, the strongest last
+		case 1: // strongest first
+			order = []int{9, 8, 7, 0, 1, 2, 3, 4, 5, 6}
+		default:
+			for i := len(order) - 1; i > 0; i-- {
+				j := p.R.Intn(i + 1)
+				order[i], order[j] = order[j], order[i]
+			}
+		}
+		// spread over two blocks; every validator its own amount (ev 4, 5: the three strong ones agree, which succeeds at 33/40)
+		p.Begin()
+		for i, v := range order {
+			amt := int64(100 + v)
+			if ev >= 4 && v >= 7 {
+				amt = 777
+			}
+			p.claim(v, n, rcv, amt, fmt.Sprintf("bridge.claim.many.e%d", ev))
+			if i == 5 {
+				p.End()
+				p.Begin()
+			}
+		}
+		p.End()
+	}
+	return p
+}
+
 // restartGasProbe attributes the extra BeginBlock gas of a restarted node: it replays the history up to the
 // first restart point on two chains, restarts one of them, and runs the two BeginBlockers that keep
 // process-local "already done" state on a context with a fresh infinite gas meter.
@@ -884,6 +927,7 @@ func init() {
 			func() (*Pilot, string) { return marginSQHistory(seed, rng), "margin-stress-queue" },
 			func() (*Pilot, string) { return sizeThresholdHistory(seed, rng), "size-thresholds" },
 			func() (*Pilot, string) { return stakingCapHistory(seed, rng), "staking-cap" },
+			func() (*Pilot, string) { return manyClaimsHistory(seed, rng), "many-claims" },
 			func() (*Pilot, string) { return ghostHistory(seed, rng, false), "genesis-lps-without-accounts.lppd" },
 			func() (*Pilot, string) { return ghostHistory(seed, rng, true), "genesis-lps-without-accounts.epoch" },
 		} {
